@@ -3,6 +3,8 @@
 package props
 
 import (
+	"encoding/json"
+	"sort"
 	"time"
 
 	"github.com/csgura/fp"
@@ -14,6 +16,36 @@ import (
 // round-trip behind the generated tags: empty-but-non-nil slices and maps under omitempty, ints inside `any`,
 // the field tagged json:"-".
 const c15FixN = 10
+
+// c15Keys is an oracle that does not go through the generated Mutable twin: the top-level keys of the emitted object.
+// want[key] says whether the key must be present: slice, map and pointer fields are omitted when nil and kept otherwise.
+// Keys not listed are not judged - Option fields (omitempty has no effect on a struct-typed field in encoding/json: None
+// is emitted as null, on the twin as well), string fields, and fields declared as `any` (the generator does not give
+// those omitempty; the emitted bytes still equal the twin's, which is what the property states).
+func c15Keys(c *c15ctx, v any, want map[string]bool) bool {
+	b, err := json.Marshal(v)
+	if err != nil {
+		return true // reported by c15Run
+	}
+	var obj map[string]json.RawMessage
+	if err := json.Unmarshal(b, &obj); err != nil {
+		c.r.Violate("encoding-differs:"+c.name, "%s: emitted %s, which is not a JSON object: %v", c.name, b, err)
+		return false
+	}
+	keys := make([]string, 0, len(want))
+	for k := range want {
+		keys = append(keys, k)
+	}
+	sort.Strings(keys)
+	for _, k := range keys {
+		if _, has := obj[k]; has != want[k] {
+			c.r.Violate("omitempty:"+c.name, "%s: emitted %s: key %q present=%v, want present=%v (slice, map and pointer fields are omitted when nil and kept otherwise)", c.name, b, k, has, want[k])
+			return false
+		}
+	}
+	c.r.Probe("emitted-key-sets-checked-without-the-twin")
+	return true
+}
 
 func c15Fixture(c *c15ctx, kind int, s1, s2 string, i1, i3 int, preDef bool) {
 	r := c.r
@@ -107,6 +139,9 @@ func c15Fixture(c *c15ctx, kind int, s1, s2 string, i1, i3 int, preDef bool) {
 			q := 5
 			pre = jfx.NilableMutable{List: []int{9}, Dict: map[string]int{"pre": 1}, Ptr: &q, Raw: "pre", Bag: map[string]any{"pre": 1.0}}.AsImmutable()
 		}
+		if !c15Keys(c, v, map[string]bool{"list": m.List != nil, "dict": m.Dict != nil, "ptr": m.Ptr != nil, "anys": m.Anys != nil, "bag": m.Bag != nil}) {
+			return
+		}
 		c15Run(c, v, pre, jfx.NilableMutable{Raw: 1.0}.AsImmutable(), any(v.AsMutable()), true, true)
 	case 3:
 		c.name = "@fp.Json fixture Tagged (explicit json tags)"
@@ -152,6 +187,9 @@ func c15Fixture(c *c15ctx, kind int, s1, s2 string, i1, i3 int, preDef bool) {
 			n := "preNick"
 			pre = jfx.AllPublicMutable{Name: "pre", Tags: []string{"p"}, Nick: &n, Age: 9, Note: fp.Some("preNote")}.AsImmutable()
 		}
+		if !c15Keys(c, v, map[string]bool{"Tags": m.Tags != nil, "Nick": m.Nick != nil, "Age": true}) {
+			return
+		}
 		c15Run(c, v, pre, jfx.AllPublicMutable{Name: "o"}.AsImmutable(), any(m), true, true)
 	case 8:
 		c.name = "@fp.Json fixture EmbedsOthers (embedded pointer, named slice, named basic type)"
@@ -193,6 +231,9 @@ func c15Fixture(c *c15ctx, kind int, s1, s2 string, i1, i3 int, preDef bool) {
 		pre := jfx.Outer{}
 		if preDef {
 			pre = jfx.OuterMutable{Inner: plain("pre", 7), Items: []jfx.Plain{plain("p", 1)}}.AsImmutable()
+		}
+		if !c15Keys(c, v, map[string]bool{"inner": true, "wo": true, "items": m.Items != nil, "byKey": m.ByKey != nil}) {
+			return
 		}
 		c15Run(c, v, pre, jfx.OuterMutable{Inner: plain("o", 0)}.AsImmutable(), any(v.AsMutable()), true, true)
 	}
